@@ -241,7 +241,10 @@ impl<S: Sample> FrameRenderHandle<S> {
     /// Name of the current protocol state (verification only).
     pub fn verif_state_name(&self) -> &'static str {
         // goes around the hooks on purpose: observation must not be a scheduling point
-        match &*self.render.verif_peek() {
+        let Some(guard) = self.render.verif_peek() else {
+            return "Locked";
+        };
+        match &*guard {
             FrameRender::None => "None",
             FrameRender::Rendering => "Rendering",
             FrameRender::InProgress(_) => "InProgress",
